@@ -20,7 +20,8 @@ from vf.runner import Violation
 ID = "C19"
 LEVEL = "exploration"
 TECHNIQUE = "generated session histories (Hypothesis) saved and restored through external state adapters; round-trip oracle on session state and served results"
-RULE = ("cases = (start in {0,1,2.5}, dt in {1,0.5,0.25,0.1}, m steps each with settings in {no body, {}, constants, points}, "
+RULE = ("cases = (start in {0,1,2.5,8,9.5,98}, dt in {1,0.5,0.25,0.1}, one or two SD scenario managers in the session, begin-session with or without settings, "
+        "history of run-step / run-steps k / a new begin-session / save-state requests, each step with settings in {no body, {}, constants, points} per manager, "
         "compress on/off, adapter kind {file, memory}, restore path {instance, server}); session_state (scenario managers, scenarios, "
         "equations, step, starttime, stoptime, dt, settings_log, results_log) and the bodies of session-results / flat-session-results "
         "before the save must equal those after the load. non-trivial = start != 1 or dt != 1, or a step without settings / with {}; "
@@ -33,26 +34,46 @@ ASSUMPTIONS = [
 SM, SC = "smC19", "base"
 
 
-def make_factory(start, stop, dt, made):
+SM2 = "smC19b"
+
+
+def make_factory(start, stop, dt, made, two=False):
     def factory():
         from BPTK_Py import Model, bptk
         from BPTK_Py import sd_functions as sd
-        m = Model(starttime=start, stoptime=stop, dt=dt, name="c19")
-        s = m.stock("s")
-        f = m.flow("f")
-        k = m.constant("k")
-        c = m.converter("c")
-        k.equation = 2.0
-        m.points["p"] = [[0.0, 0.0], [10.0, 10.0]]
-        c.equation = sd.lookup(sd.time(), "p")
-        f.equation = k * 1.0 + c
-        s.equation = f
-        s.initial_value = 0.0
+
+        def model(name, k0):
+            m = Model(starttime=start, stoptime=stop, dt=dt, name=name)
+            s = m.stock("s")
+            f = m.flow("f")
+            k = m.constant("k")
+            c = m.converter("c")
+            k.equation = k0
+            m.points["p"] = [[0.0, 0.0], [10.0, 10.0]]
+            c.equation = sd.lookup(sd.time(), "p")
+            f.equation = k * 1.0 + c
+            s.equation = f
+            s.initial_value = 0.0
+            return m
         b = bptk()
-        b.register_model(m, scenario_manager=SM)
+        b.register_model(model("c19", 2.0), scenario_manager=SM)
+        if two:
+            b.register_model(model("c19b", 3.0), scenario_manager=SM2)
         made.append(b)
         return b
     return factory
+
+
+def settings_body(s1, s2=None):
+    """JSON body of a stepping request: None = no body at all"""
+    if s1 is None and s2 is None:
+        return None
+    d = {}
+    if s1:
+        d[SM] = {SC: s1}
+    if s2:
+        d[SM2] = {SC: s2}
+    return {"settings": d}
 
 
 def memory_adapter(compress):
@@ -140,12 +161,22 @@ def first_diff(a, b, path=""):
     return None
 
 
+def _ops(case):
+    if "ops" in case:
+        return case["ops"]
+    return [["step", s_, None] for s_ in case["steps"]]  # format of earlier replay files
+
+
 def check_case(case):
     from BPTK_Py import BptkServer, FileAdapter
 
     vs = []
     info = {}
-    start, dt, steps = float(case["start"]), float(case["dt"]), case["steps"]
+    start, dt = float(case["start"]), float(case["dt"])
+    ops = _ops(case)
+    steps = ops
+    two = bool(case.get("two"))
+    managers = case.get("managers", [SM])
     stop = start + 40 * dt
     made = []
     adir = None
@@ -156,24 +187,45 @@ def check_case(case):
             adapter = FileAdapter(case["compress"], adir)
         else:
             adapter = memory_adapter(case["compress"])
-        app = BptkServer(__name__, bptk_factory=make_factory(start, stop, dt, made), external_state_adapter=adapter)
+        app = BptkServer(__name__, bptk_factory=make_factory(start, stop, dt, made, two), external_state_adapter=adapter)
         app.logger.disabled = True
         c = app.test_client()
         iid = json.loads(c.post("/start-instance").data)["instance_uuid"]
-        r = c.post("/%s/begin-session" % iid, json={"scenario_managers": [SM], "scenarios": [SC], "equations": case["equations"]})
+
+        def begin(equations, bs):
+            body = {"scenario_managers": managers, "scenarios": [SC], "equations": equations}
+            sb = settings_body(*(bs or [None, None]))
+            if sb is not None and sb["settings"]:
+                body["settings"] = sb["settings"]
+            return c.post("/%s/begin-session" % iid, json=body)
+        r = begin(case["equations"], case.get("begin_settings"))
         if r.status_code != 200:
             vs.append(Violation("begin-session:%d" % r.status_code, "begin-session -> %d" % r.status_code))
             return info, vs
-        for i, st_ in enumerate(steps):
-            if st_ is None:
-                r = c.post("/%s/run-step" % iid)
-                what = "no-body"
+        for i, op in enumerate(ops):
+            if op[0] == "step":
+                body = settings_body(op[1], op[2] if two else None)
+                r = c.post("/%s/run-step" % iid) if body is None else c.post("/%s/run-step" % iid, json=body)
+                what = "no-body" if body is None else ("empty-settings" if not body["settings"] else "settings")
+                what = "run-step:" + what
+            elif op[0] == "steps":
+                body = settings_body(op[2], op[3] if two else None) or {"settings": {}}
+                r = c.post("/%s/run-steps" % iid, json=dict(body, numberSteps=op[1]))
+                what = "run-steps"
+            elif op[0] == "begin":
+                r = begin(op[1], op[2])
+                what = "begin-session"
+            elif op[0] == "save":
+                r = c.get("/save-state")
+                what = "save-state"
             else:
-                r = c.post("/%s/run-step" % iid, json={"settings": {SM: {SC: st_}} if st_ else {}})
-                what = "empty-settings" if not st_ else "settings"
+                raise ValueError(op)
             if r.status_code != 200:
-                vs.append(Violation("run-step-status:%s:%s" % (mode, what), "step #%d (%s) with a %s adapter -> %d %r" % (i, what, mode, r.status_code, r.data[:200])))
+                vs.append(Violation("request-status:%s:%s" % (mode, what), "request #%d %r (%s) with a %s adapter -> %d %r" % (i, op, what, mode, r.status_code, r.data[:200])))
                 return info, vs
+        if case["path"] == "instance" and ops and ops[-1][0] == "begin":
+            # nothing has written the new session yet: save the instance through the adapter as the stepping handlers do
+            adapter.save_instance(app._instance_manager._get_instance_state(iid))
         im = app._instance_manager
         before_state = norm_state(copy.deepcopy(im._instances[iid]["instance"].session_state))
         before_res = json.loads(c.get("/%s/session-results" % iid).data)
@@ -193,7 +245,7 @@ def check_case(case):
             if r.status_code != 200:
                 vs.append(Violation("save-state:%d" % r.status_code, "save-state -> %d" % r.status_code))
                 return info, vs
-            app2 = BptkServer(__name__, bptk_factory=make_factory(start, stop, dt, made), external_state_adapter=adapter)
+            app2 = BptkServer(__name__, bptk_factory=make_factory(start, stop, dt, made, two), external_state_adapter=adapter)
             app2.logger.disabled = True
             c2 = app2.test_client()
             r = c2.post("/load-state")
@@ -243,24 +295,36 @@ def case_strategy():
                         st.sampled_from([0.5, 1.0, 3.0, 7.0]).map(lambda v: {"constants": {"k": v}}),
                         st.sampled_from([1.0, 5.0, 20.0]).map(lambda v: {"points": {"p": [[0.0, 0.0], [10.0, v]]}}),
                         st.sampled_from([1.0, 4.0]).map(lambda v: {"constants": {"k": v}, "points": {"p": [[0.0, 1.0], [10.0, v]]}}))
+    eqs = st.sampled_from([["s"], ["s", "f"], ["k", "c", "s"]])
+    bset = st.one_of(st.none(), st.tuples(setting, setting).map(list))
+    op = st.one_of(st.tuples(setting, setting).map(lambda x: ["step", x[0], x[1]]),
+                   st.tuples(setting, setting).map(lambda x: ["step", x[0], x[1]]),
+                   st.tuples(st.integers(1, 3), setting, setting).map(lambda x: ["steps", x[0], x[1], x[2]]),
+                   st.tuples(eqs, bset).map(lambda x: ["begin", x[0], x[1]]),
+                   st.just(["save"]))
     return st.fixed_dictionaries({
         "start": st.sampled_from(["0", "1", "2.5", "8", "9.5", "98"]), "dt": st.sampled_from(["1", "0.5", "0.25", "0.1"]),
-        "steps": st.lists(setting, min_size=1, max_size=7),
-        "equations": st.sampled_from([["s"], ["s", "f"], ["k", "c", "s"]]),
-        "compress": st.booleans(), "adapter": st.sampled_from(["file", "memory"]), "path": st.sampled_from(["instance", "server"])})
+        "two": st.booleans(), "begin_settings": bset,
+        "ops": st.lists(op, min_size=1, max_size=7),
+        "equations": eqs,
+        "compress": st.booleans(), "adapter": st.sampled_from(["file", "memory"]), "path": st.sampled_from(["instance", "server"])}).map(
+        lambda c: dict(c, managers=[SM, SM2] if c["two"] else [SM]))
 
 
 def _body(ctx):
     def body(case):
         info, vs = check_case(case)
-        nt = case["start"] != "1" or case["dt"] != "1" or any(s is None or s == {} for s in case["steps"])
-        ctx.case(case, nontrivial=nt, labels=["compress:%s" % case["compress"], "adapter:" + case["adapter"], "path:" + case["path"]], key=case)
+        ops = _ops(case)
+        nt = case["start"] != "1" or case["dt"] != "1" or any(o[0] != "step" or o[1] is None or o[1] == {} for o in ops)
+        ctx.case(case, nontrivial=nt, labels=["compress:%s" % case["compress"], "adapter:" + case["adapter"], "path:" + case["path"],
+                                              "managers:%d" % len(case.get("managers", [SM]))] + sorted(set("op:" + o[0] for o in ops)) +
+                 (["ends-with-begin"] if ops[-1][0] == "begin" else []) + (["begin-settings"] if case.get("begin_settings") else []), key=case)
         ctx.report(vs)
     return body
 
 
 def plan(tier):
-    n = 40 if tier == "quick" else 600
+    n = 150 if tier == "quick" else 3000
     return [{"n": n} for _ in range(16)]
 
 
